@@ -67,6 +67,25 @@ Definition path_ok (f : apifn) (h : list hstmt) (s : hst) : bool :=
 Definition destroys_tmp (l : list hstmt) : bool :=
   existsb (fun h => match h with HDestroyTmp HAlways => true | _ => false end) l.
 
+(* returns that bypass the bailout block after the function started to drive a libjpeg object: only the known
+   shapes are accepted -- a tail call of an API function that itself drives (and on every error path resets) the same
+   objects, the tables-only return of tj3DecompressHeader (jpeg_read_header has aborted), and the return after a
+   parameter setter rejected a value taken from the library's own table (cannot happen) *)
+Fixpoint find_api (n : string) (l : list apifn) : option apifn :=
+  match l with [] => None | f :: t => if String.eqb (fn_name f) n then Some f else find_api n t end.
+Definition early_return_ok (all : list apifn) (f : apifn) (r : eret) : bool :=
+  match r with
+  | ERTailCall callee =>
+      match find_api callee all with
+      | Some g => (negb (fn_uses_d f) || fn_uses_d g) && (negb (fn_uses_c f) || fn_uses_c g)
+      | None => false
+      end
+  | ERTablesOnly => String.eqb (fn_name f) "tj3DecompressHeader"
+  | ERSetterFailed => true
+  | EROther _ => false
+  end.
+Definition early_returns_ok (all : list apifn) (f : apifn) : bool := forallb (early_return_ok all f) (fn_early_returns f).
+
 Definition fn_ok (f : apifn) : bool :=
   forallb (fun s => forallb (fun h => path_ok f h s) (throw_path :: fn_handlers f)) all_hst &&
   (negb (fn_tmp_instance f) ||
